@@ -314,6 +314,10 @@ class Engine:
     def dict_vals(self, st, dv: V):
         return z3.Select(self.h(st, ("dv", dv.t.args[0], dv.t.args[1])), dv.z)
 
+    def spec_dict_get(self, st, dv: V, key: V) -> V:
+        kt, vt = dv.t.args[:2]
+        return V(vt, z3.Select(self.dict_vals(st, dv), self.coerce(key, kt).z))
+
     def set_dict(self, st, dv: V, keys=None, vals=None):
         if keys is not None:
             k = ("dk", dv.t.args[0])
@@ -334,12 +338,7 @@ class Engine:
         st.assume(z3.Not(z3.Select(self.alloc(st), r)))
         # heap well-formedness w.r.t. the CURRENT allocation map: what an allocated object references through an
         # immutable field is allocated too (so it cannot be the object created now)
-        alc = self.alloc(st)
-        wr = z3.Const("wr", ty.RefSort)
-        for (owner, fname), f in list(self.imm.items()):
-            if f.range() == ty.RefSort and self.spec.classes.get(owner, {}).get("fields", {}).get(fname, (None,))[0] is not None \
-                    and self.spec.classes[owner]["fields"][fname][0].kind != "fn":
-                st.assume(z3.ForAll([wr], z3.Implies(z3.Select(alc, wr), z3.Or(f(wr) == ty.null, z3.Select(alc, f(wr)))), patterns=[f(wr)]))
+        self.assume_imm_wf(st)
         # facts that survive path-condition pruning: not part of the initial heap (allocation only grows), and a
         # birth stamp per allocation point (objects of the initial heap have stamp 0): different stamps, different objects
         if ("alloc",) not in self.heap0:
@@ -356,6 +355,14 @@ class Engine:
             self.extra_axioms.append(birth(ty.null) == 0)
         self.hset(st, ("alloc",), z3.Store(self.alloc(st), r, True))
         return V(t, r)
+
+    def assume_imm_wf(self, st: State):
+        alc = self.alloc(st)
+        wr = z3.Const("wr", ty.RefSort)
+        for (owner, fname), f in list(self.imm.items()):
+            if f.range() == ty.RefSort and self.spec.classes.get(owner, {}).get("fields", {}).get(fname, (None,))[0] is not None \
+                    and self.spec.classes[owner]["fields"][fname][0].kind != "fn":
+                st.assume(z3.ForAll([wr], z3.Implies(z3.Select(alc, wr), z3.Or(f(wr) == ty.null, z3.Select(alc, f(wr)))), patterns=[f(wr)]))
 
     def new_list(self, st, elem_t: T, seq=None) -> V:
         lv = self.new_ref(st, ty.List(elem_t), "list")
@@ -1087,8 +1094,18 @@ class Engine:
                 # specification-level indexing is mathematical (no negative indices)
                 return V(et, so.At(seq, iz))
             return V(et, so.At(seq, z3.If(iz < 0, n + iz, iz)))
+        if k == "dict" and len(base.t.args) == 3 and not fr.spec:
+            # defaultdict(int): reading a missing key inserts the default 0
+            kt, vt = base.t.args[:2]
+            kz = self.coerce(idx, kt).z
+            so = seq_ops(kt)
+            keys, vals = self.dict_keys(st, base), self.dict_vals(st, base)
+            present = so.Mem(keys, kz)
+            zero = z3.IntVal(0) if vt.kind == "int" else z3.RealVal(0)
+            self.set_dict(st, base, z3.If(present, keys, so.App(keys, kz)), z3.If(present, vals, z3.Store(vals, kz, zero)))
+            return V(vt, z3.If(present, z3.Select(vals, kz), zero))
         if k == "dict":
-            kt, vt = base.t.args
+            kt, vt = base.t.args[:2]
             kz = self.coerce(idx, kt).z
             present = seq_ops(kt).Mem(self.dict_keys(st, base), kz)
             if fr.comp_defs is not None:
@@ -1132,7 +1149,8 @@ class Engine:
         """Returns (kind, payload) describing the iterated domain of a comprehension clause."""
         it = gen.iter
         if isinstance(it, ast.Call) and isinstance(it.func, ast.Name) and it.func.id == "every":
-            return "every", ty.Ref(it.args[0].value)
+            nm = it.args[0].value
+            return "every", (STR if nm == "str" else INT if nm == "int" else ty.Ref(nm))
         if isinstance(it, ast.Call) and isinstance(it.func, ast.Name) and it.func.id == "range":
             args = [self.ev(a, st, fr) for a in it.args]
             lo, hi = (z3.IntVal(0), args[0].z) if len(args) == 1 else (args[0].z, args[1].z)
@@ -1189,7 +1207,7 @@ class Engine:
             dom = z3.And(lo <= i, i < hi)
             var = i
         elif kind == "every":
-            x = fresh("qe", ty.RefSort)
+            x = fresh("qe", ty.zsort(payload))
             self.bind_target(gen.target, V(payload, x), sub.binds)
             dom = z3.BoolVal(True)
             var = x
@@ -1287,11 +1305,83 @@ class Engine:
                                                  so2.Mem(R, z3.substitute(elt.z, (x, xx)))), patterns=[so.Mem(seq, xx)]))
         return V(ty.SeqV(elt.t), R) if fr.spec else self.new_list(st, elt.t, R)
 
+    def _comp_sub(self, gen, st, fr):
+        kind, payload = self.comp_iter(gen, st, fr)
+        sub = Frame(fr.qname, fr.module, fr.cls, fr.contract, fr.fn, old=fr.old, spec=True, binds=dict(fr.binds),
+                    entry_locals=fr.entry_locals, loop_entry=fr.loop_entry)
+        return kind, payload, sub
+
     def ev_DictComp(self, node, st, fr):
-        raise CheckerError(f"{fr.qname}: dict comprehension at line {node.lineno} not modelled")
+        """{k(x): v(x) for x in S}: key set = image of k, every key's value is v(x) for some x with that key
+        (the last one wins in Python; if keys are distinct over S that is the only one)."""
+        if len(node.generators) != 1 or node.generators[0].ifs:
+            raise CheckerError(f"{fr.qname}: dict comprehension form at line {node.lineno} not modelled")
+        gen = node.generators[0]
+        kind, payload, sub = self._comp_sub(gen, st, fr)
+        hint = getattr(node, "_dict_t", None)
+        if kind == "finite":
+            items = payload
+            ks, vs = [], []
+            for it in items:
+                b = dict(sub.binds); self.bind_target(gen.target, it, b)
+                sub2 = Frame(fr.qname, fr.module, fr.cls, fr.contract, fr.fn, old=fr.old, spec=True, binds=b, entry_locals=fr.entry_locals)
+                ks.append(self.ev(node.key, st, sub2)); vs.append(self.ev(node.value, st, sub2))
+            kt, vt = (hint.args if hint is not None else (ks[0].t, vs[0].t))
+            dv = self.new_ref(st, ty.Dict(kt, vt), "dict")
+            so = seq_ops(kt)
+            kseq = so.Empty
+            varr = z3.Select(self.h(st, ("dv", kt, vt)), dv.z)
+            for k_, v_ in zip(ks, vs):
+                kseq = so.App(kseq, self.coerce(k_, kt).z)
+                varr = z3.Store(varr, self.coerce(k_, kt).z, self.coerce(v_, vt).z)
+            st.assume(so.NoDup(kseq))
+            self.set_dict(st, dv, kseq, varr)
+            return dv
+        if kind != "seq":
+            raise CheckerError(f"{fr.qname}: dict comprehension over {kind} not modelled")
+        seq, et = payload
+        so = seq_ops(et)
+        x = fresh("dx", ty.zsort(et))
+        self.bind_target(gen.target, V(et, x), sub.binds)
+        kx, vx = self.ev(node.key, st, sub), self.ev(node.value, st, sub)
+        kt, vt = (hint.args if hint is not None else (kx.t, vx.t))
+        kx, vx = self.coerce(kx, kt), self.coerce(vx, vt)
+        dv = self.new_ref(st, ty.Dict(kt, vt), "dict")
+        sk = seq_ops(kt)
+        keys = fresh("dkeys", sk.S)
+        vals = fresh("dvals", z3.ArraySort(ty.zsort(kt), ty.zsort(vt)))
+        wit = self.ufn(f"dcwit!{next(_fresh)}", ty.zsort(kt), ty.zsort(et))
+        y = fresh("dy", ty.zsort(kt))
+        st.assume(sk.NoDup(keys))
+        st.assume(sk.Len(keys) <= so.Len(seq))
+        st.assume(z3.ForAll([x], z3.Implies(so.Mem(seq, x), sk.Mem(keys, kx.z)), patterns=[so.Mem(seq, x)]))
+        st.assume(z3.ForAll([y], z3.Implies(sk.Mem(keys, y), z3.And(so.Mem(seq, wit(y)), z3.substitute(kx.z, (x, wit(y))) == y,
+                                                                  z3.Select(vals, y) == z3.substitute(vx.z, (x, wit(y))))), patterns=[sk.Mem(keys, y)]))
+        self.set_dict(st, dv, keys, vals)
+        return dv
 
     def ev_SetComp(self, node, st, fr):
-        raise CheckerError(f"{fr.qname}: set comprehension at line {node.lineno} not modelled")
+        if len(node.generators) != 1 or node.generators[0].ifs:
+            raise CheckerError(f"{fr.qname}: set comprehension form at line {node.lineno} not modelled")
+        gen = node.generators[0]
+        kind, payload, sub = self._comp_sub(gen, st, fr)
+        if kind != "seq":
+            raise CheckerError(f"{fr.qname}: set comprehension over {kind} not modelled")
+        seq, et = payload
+        so = seq_ops(et)
+        x = fresh("sx", ty.zsort(et))
+        self.bind_target(gen.target, V(et, x), sub.binds)
+        fx = self.ev(node.elt, st, sub)
+        sv = self.new_ref(st, ty.Set(fx.t), "set")
+        arr = fresh("setv", z3.ArraySort(ty.zsort(fx.t), z3.BoolSort()))
+        wit = self.ufn(f"scwit!{next(_fresh)}", ty.zsort(fx.t), ty.zsort(et))
+        y = fresh("sy", ty.zsort(fx.t))
+        st.assume(z3.ForAll([x], z3.Implies(so.Mem(seq, x), z3.Select(arr, fx.z)), patterns=[so.Mem(seq, x)]))
+        st.assume(z3.ForAll([y], z3.Implies(z3.Select(arr, y), z3.And(so.Mem(seq, wit(y)), z3.substitute(fx.z, (x, wit(y))) == y)),
+                            patterns=[z3.Select(arr, y)]))
+        key = ("set", fx.t)
+        self.hset(st, key, z3.Store(self.h(st, key), sv.z, arr), sv.z)
+        return sv
 
     def ev_Lambda(self, node, st, fr):
         return V(T("lambda"), None, node)
@@ -1454,7 +1544,7 @@ class Engine:
     def store_subscript(self, base: V, idx: V, val: V, st, fr, where=""):
         k = base.t.kind
         if k == "dict":
-            kt, vt = base.t.args
+            kt, vt = base.t.args[:2]
             kz = self.coerce(idx, kt).z
             so = seq_ops(kt)
             keys = self.dict_keys(st, base)
@@ -1564,7 +1654,7 @@ class Engine:
                 idx = self.ev(tg.slice, st, fr)
                 if base.t.kind != "dict":
                     raise CheckerError("del on non-dict")
-                kt, vt = base.t.args
+                kt, vt = base.t.args[:2]
                 so = seq_ops(kt)
                 keys = self.dict_keys(st, base)
                 kz = self.coerce(idx, kt).z
